@@ -639,8 +639,36 @@ struct is_generalised_matrix_vector<Index<Idx0...>,Index<Idx1...> > {
 };
 
 
+// a rank-0 operand (empty index list) is never a generalised matrix/vector product
+template<size_t ... Idx1>
+struct is_generalised_matrix_vector<Index<>,Index<Idx1...> > {
+    static constexpr size_t which_one_is_vector = 0;
+    static constexpr bool value = false;
+    static constexpr size_t matches_up_to = 0;
+};
+template<size_t Idx, size_t ... Idx0>
+struct is_generalised_matrix_vector<Index<Idx,Idx0...>,Index<> > {
+    static constexpr size_t which_one_is_vector = 1;
+    static constexpr bool value = false;
+    static constexpr size_t matches_up_to = 0;
+};
+
+
 template<class Idx0, class Idx1>
 struct is_generalised_vector_matrix;
+
+template<size_t ... Idx1>
+struct is_generalised_vector_matrix<Index<>,Index<Idx1...> > {
+    static constexpr size_t which_one_is_vector = 0;
+    static constexpr bool value = false;
+    static constexpr size_t matches_up_to = 0;
+};
+template<size_t Idx, size_t ... Idx0>
+struct is_generalised_vector_matrix<Index<Idx,Idx0...>,Index<> > {
+    static constexpr size_t which_one_is_vector = 1;
+    static constexpr bool value = false;
+    static constexpr size_t matches_up_to = 0;
+};
 
 template<size_t ... Idx0, size_t ... Idx1>
 struct is_generalised_vector_matrix<Index<Idx0...>,Index<Idx1...> > {
@@ -668,6 +696,16 @@ struct is_generalised_matrix_matrix<Index<Idx0...>,Index<Idx1...> > {
     // the _matmul back ends assume that no index is repeated inside one list (a partial trace)
     static constexpr bool no_repeats_within = no_of_unique<Idx0...>::value == sizeof...(Idx0) && no_of_unique<Idx1...>::value == sizeof...(Idx1);
     static constexpr bool value = no_repeats_within && !is_mat_vec && !is_vec_mat && !is_inner && match_indices_from_two_ends(idx0, idx1, ncontracted);
+};
+template<size_t ... Idx1>
+struct is_generalised_matrix_matrix<Index<>,Index<Idx1...> > {
+    static constexpr bool value = false;
+    static constexpr int ncontracted = 0;
+};
+template<size_t Idx, size_t ... Idx0>
+struct is_generalised_matrix_matrix<Index<Idx,Idx0...>,Index<> > {
+    static constexpr bool value = false;
+    static constexpr int ncontracted = 0;
 };
 //--------------------------------------------------------------------------------------------------------------------//
 } // namespace internal
